@@ -1,7 +1,7 @@
 #!/bin/sh
 # Builds the framework from files on disk only (offline). Run once after a fresh restore.
 set -e
-cd /verif
+V=${VERIF_DIR:-/verif}; cd $V
 export GOFLAGS=-mod=mod GOPROXY=off GOSUMDB=off GOTOOLCHAIN=local CGO_ENABLED=0
 mkdir -p bin evidence replays
 go1.26.8 build -o bin/siminstr ./tools/siminstr
